@@ -44,8 +44,21 @@ def execute(case):
     return out
 
 
+def mapnest(n, fn):
+    return [mapnest(x, fn) for x in n] if isinstance(n, list) else fn(n)
+
+
 def exec_nest(case, out):
-    nest, d, depth = case["nest"], case["d"], case["depth"]
+    proj.VALUE_MAP = proj.VALUE_MAPS.get(case.get("vmap", ""))
+    try:
+        _exec_nest(case, out)
+    finally:
+        proj.VALUE_MAP = None
+
+
+def _exec_nest(case, out):
+    nest0, d, depth = case["nest"], proj.real(case["d"]), case["depth"]
+    nest = mapnest(nest0, proj.real)               # the real scalars standing for the abstract entries (identity without a value class)
     if case["via"] == "tensor":
         t = Tensor.fromUncompressed(IDS[:depth], nest, default=d)
         root = t.getRoot()
@@ -55,10 +68,11 @@ def exec_nest(case, out):
         out["shape"] = shape_list(root.getShape())
     out["tree"] = proj.proj_fiber(root)
     import json
-    out["unc_s"], out["unc_exc"], out["nest_s"] = "", "ok", json.dumps(nest, separators=(",", ":"))
+    out["unc_s"], out["unc_exc"], out["nest_s"] = "", "ok", json.dumps(nest0, separators=(",", ":"))
     try:
         kw = {"shape": out["shape"]} if case.get("unc_shape", 1) else {}
-        out["unc_s"] = json.dumps(root.uncompress(**kw), separators=(",", ":"), default=repr)
+        back = mapnest(root.uncompress(**kw), lambda v: proj.abstract(v) if proj.abstract(v) is not None else v)
+        out["unc_s"] = json.dumps(back, separators=(",", ":"), default=repr)
     except BaseException as ex:  # noqa: B036
         out["unc_exc"] = "err:" + type(ex).__name__
 
@@ -88,7 +102,7 @@ def exec_roundtrip(case, out):
         return
     t = proj.build_tensor(case["tree"], IDS[:depth], shape=[4] * depth, default=d, name="TT")
     if case.get("flatten"):
-        t = t.flattenRanks(depth=0, levels=case["flatten"], coord_style="tuple")
+        t = t.flattenRanks(depth=0, levels=case["flatten"], coord_style=case.get("fstyle", "tuple"))
     if case["obj"] == "tensor":
         out.update({"istensor": 1, "ids": [list(x) if isinstance(x, (list, tuple)) else x for x in t.getRankIds()], "shape": shape_list(t.getShape()), "name": t.getName(),
                     "orig": proj.proj_fiber(t.getRoot(), mode=mode)})
